@@ -608,6 +608,14 @@ impl Scenario for S15 {
     }
 }
 
+fn enum_depth(tier: Tier) -> u32 {
+    if tier == Tier::Quick {
+        7
+    } else {
+        9
+    }
+}
+
 pub struct P15;
 
 impl Property for P15 {
@@ -696,6 +704,44 @@ impl Property for P15 {
         let mut all: Vec<S15> = out.into_iter().map(S15::Single).collect();
         all.extend(crate::pipe::PipeSc::sweeps().into_iter().map(S15::Pipe));
         all
+    }
+
+    // exhaustive bounded enumeration: every lane of the given depth over the alphabet
+    // {deliver 1, deliver 2, deliver all, Pending+keep polling, Pending+cancel, transient error}, on an 11-byte two-frame
+    // stream, uncut and cut inside the second frame's prefix / payload
+    fn enumerated(tier: Tier) -> u64 {
+        3 * 6u64.pow(enum_depth(tier))
+    }
+
+    fn enumerate(tier: Tier, i: u64) -> S15 {
+        let depth = enum_depth(tier);
+        let lanes = 6u64.pow(depth);
+        let cut = match i / lanes {
+            0 => None,
+            1 => Some(7),
+            _ => Some(10),
+        };
+        let mut x = i % lanes;
+        let mut src = Vec::with_capacity(depth as usize);
+        let mut caller = Vec::new();
+        for _ in 0..depth {
+            match x % 6 {
+                0 => src.push(Step::Xfer(1)),
+                1 => src.push(Step::Xfer(2)),
+                2 => src.push(Step::Xfer(u32::MAX)),
+                3 => {
+                    src.push(Step::Pending);
+                    caller.push(Decide::Poll)
+                }
+                4 => {
+                    src.push(Step::Pending);
+                    caller.push(Decide::Cancel)
+                }
+                _ => src.push(Step::Err(ErrKind::WouldBlock)),
+            }
+            x /= 6;
+        }
+        S15::Single(C15 { cut, src, caller, ..base(Ty::Str, fixed_values(Ty::Str, &[0, 1])) })
     }
 
     fn random_runs(tier: Tier) -> u64 {
